@@ -161,6 +161,23 @@ func c16ParseCopy(l *c16Log) wire.ParseFn {
 	}
 }
 
+// c16ParseTwo: every query is two statements, each with yield points.
+func c16ParseTwo(l *c16Log) wire.ParseFn {
+	return func(ctx context.Context, q string) (wire.PreparedStatements, error) {
+		cn := connName(ctx)
+		mk := func(tag string) *wire.PreparedStatement {
+			return wire.NewStatement(func(ctx context.Context, w wire.DataWriter, p []wire.Parameter) error {
+				sp := l.begin(cn, "statement")
+				vsched.Yield("stmt." + tag)
+				err := w.Complete(tag)
+				l.finish(sp)
+				return err
+			})
+		}
+		return wire.Prepared(mk("FIRST"), mk("SECOND")), nil
+	}
+}
+
 // c16Parse: parser and statement function contain explicit yield points so a handler is never atomic.
 func c16Parse(l *c16Log) wire.ParseFn {
 	return func(ctx context.Context, q string) (wire.PreparedStatements, error) {
@@ -197,6 +214,8 @@ type c16Spec struct {
 	closeBeforeServe bool
 	// listeners: number of listeners served by the one Server (0 = 1); connection i arrives on listener i % listeners
 	listeners int
+	// twoStatements: every query consists of two statements (C05: a cycle is never cut short between them)
+	twoStatements bool
 	// poolFIFO: sync.Pool shims hand out the oldest item instead of the newest one
 	poolFIFO bool
 	desc     string
@@ -221,6 +240,8 @@ func c16Specs() []c16Spec {
 			desc: "one Server serving two listeners (a connection with a Query on the first, an idle connection on the second) + Close: every Serve call returns nil, every accept loop stops"},
 		{name: "X11", conns: []c16Conn{{"c1", [][]byte{start, pgproto.Cat(q, q)}}}, closers: 1,
 			desc: "two Query messages arriving in one segment (the second is already buffered while the first handler runs) + Close"},
+		{name: "X12", conns: []c16Conn{{"c1", [][]byte{start, pgproto.Msg('Q', []byte("no terminator")), q}}, {"c2", [][]byte{start, q}}}, closers: 1, secondClose: true,
+			desc: "a connection that ends with a malformed message (its command fails with a connection-level error) next to a normal one + Close + a second Close: every admitted command is released"},
 		{name: "X8", conns: []c16Conn{{"c1", [][]byte{start, q}}}, closers: 1, acceptFault: true,
 			desc: "the listener fails with an Accept error (Serve returns it) while a connection is inside a handler, then Close"},
 	}
@@ -242,6 +263,9 @@ func c16Scenario(spec c16Spec) *Scenario {
 				}
 				if spec.copyIn {
 					parse = c16ParseCopy(log)
+				}
+				if spec.twoStatements {
+					parse = c16ParseTwo(log)
 				}
 				srv, err := wire.NewServer(parse, wire.Logger(harness.Quiet), wire.MessageBufferSize(1<<12))
 				if err != nil {
@@ -332,6 +356,18 @@ func c16Scenario(spec c16Spec) *Scenario {
 					}
 				}
 				for _, sc := range conns {
+					if ms, err := pgproto.ParseBackend(sc.Output()); err == nil && spec.twoStatements {
+						// a simple Query cycle carries the results of ALL its statements (or a single error) before its
+						// ReadyForQuery, whatever Close does meanwhile; a query that was not admitted is not answered at all
+						k := pgproto.Kinds(ms)
+						if i := strings.IndexByte(k, 'Z'); i >= 0 {
+							for _, cycle := range strings.SplitAfter(k[i+1:], "Z") {
+								if cycle != "" && cycle != "CCZ" && !strings.Contains(cycle, "E") {
+									fail("cycle-cut-short", fmt.Sprintf("connection %s: a query of two statements was answered %q (expected the results of both statements before ReadyForQuery)", sc.Name, cycle))
+								}
+							}
+						}
+					}
 					if _, err := pgproto.ParseBackend(sc.Output()); err != nil {
 						fail("malformed-backend-stream", fmt.Sprintf("connection %s received bytes that are not well-formed backend messages: %v", sc.Name, err))
 					}
